@@ -28,11 +28,11 @@ pub fn drv_name(t: DriverType) -> &'static str {
     }
 }
 
-pub fn new_runtime(t: DriverType) -> Runtime {
+pub fn new_runtime(t: DriverType, pool: (usize, u16)) -> Runtime {
     let mut pb = ProactorBuilder::new();
     pb.driver_type(t).capacity(32);
-    pb.buffer_pool_size(NonZero::new(POOL_BUFS).unwrap());
-    pb.buffer_pool_buffer_len(POOL_BUF_LEN);
+    pb.buffer_pool_size(NonZero::new(pool.1).unwrap());
+    pb.buffer_pool_buffer_len(pool.0);
     let rt = match Runtime::builder().with_proactor(pb).build() {
         Ok(rt) => rt,
         Err(e) => vcore::machinery_error(&format!("cannot create a compio runtime on {t:?}: {e}")),
@@ -184,7 +184,7 @@ pub fn drive<T: 'static>(rt: &Runtime, fut: impl Future<Output = T> + 'static) -
 /// execution still gets fresh sockets, everything in flight is dropped and reaped at its end, and
 /// an execution that found something is repeated on a fresh runtime.
 pub struct RtCache {
-    slots: Vec<(DriverType, Runtime, u32)>,
+    slots: Vec<((DriverType, usize), Runtime, u32)>,
     pub reuse: u32,
     pub created: u64,
 }
@@ -195,19 +195,20 @@ impl RtCache {
     }
 
     /// returns the runtime and whether it has served an execution before
-    pub fn get(&mut self, t: DriverType) -> (&Runtime, bool) {
+    pub fn get(&mut self, t: DriverType, pool: (usize, u16)) -> (&Runtime, bool) {
         let reuse = self.reuse;
-        self.slots.retain(|(d, _, n)| !(*d == t && *n >= reuse));
-        if !self.slots.iter().any(|(d, ..)| *d == t) {
-            self.slots.push((t, new_runtime(t), 0));
+        let key = (t, pool.0);
+        self.slots.retain(|(d, _, n)| !(*d == key && *n >= reuse));
+        if !self.slots.iter().any(|(d, ..)| *d == key) {
+            self.slots.push((key, new_runtime(t, pool), 0));
             self.created += 1;
         }
-        let e = self.slots.iter_mut().find(|(d, ..)| *d == t).unwrap();
+        let e = self.slots.iter_mut().find(|(d, ..)| *d == key).unwrap();
         e.2 += 1;
         (&e.1, e.2 > 1)
     }
 
     pub fn retire(&mut self, t: DriverType) {
-        self.slots.retain(|(d, ..)| *d != t);
+        self.slots.retain(|(d, ..)| d.0 != t);
     }
 }
